@@ -104,7 +104,7 @@ func (d *motionDetector) calculateThreshold(backAverage float64) {
 		d.tempThresh = uint16(backAverage)
 	}
 	if d.tempThreshMax != 0 {
-		d.tempThresh = uint16(math.Min(backAverage, float64(d.tempThreshMax)))
+		d.tempThresh = uint16(math.Min(float64(d.tempThresh), float64(d.tempThreshMax)))
 	}
 }
 
